@@ -188,6 +188,17 @@ func (h *hist) writeRaw(ver string, b0, nb im.P3, mutate, useROI bool) error {
 	h.seq++
 	blocks := map[im.P3][]byte{}
 	forBlocks(b0, nb, func(bc im.P3) { blocks[bc] = h.m.FillBlock(h.j.seed, h.seq, bc, h.j.vt.kind) })
+	// one write in five erases: some (or all) of its blocks are all background - written over whatever the version
+	// or its ancestors hold there, the voxels must read as background afterwards like any other written value
+	if h.r.Intn(5) == 0 {
+		all := h.r.Intn(2) == 0
+		forBlocks(b0, nb, func(bc im.P3) {
+			if all || h.r.Intn(2) == 0 {
+				blocks[bc] = append([]byte{}, h.m.BackgroundBlock()...)
+			}
+		})
+		h.c.Count("writes_with_all_background_blocks", 1)
+	}
 	payload := h.m.BoxFromBlocks(b0, nb, func(bc im.P3) []byte { return blocks[bc] })
 	off, size := h.blockSpan(b0, nb)
 	url := fmt.Sprintf("%s/raw/0_1_2/%s/%s", h.base(ver), size, off)
